@@ -410,7 +410,7 @@ func genC17(c *Ctx) {
 		var mv []string
 		wasOver, live := false, false
 		ln := 4 + c.R.Intn(14)
-		for len(mv) < ln {
+		for tries := 0; len(mv) < ln && tries < 400; tries++ {
 			ms := p.AllMoves(nil)
 			if len(ms) == 0 {
 				break
@@ -418,7 +418,7 @@ func genC17(c *Ctx) {
 			m := ms[c.R.Intn(len(ms))]
 			next, err := p.Move(m)
 			if err != nil {
-				continue
+				continue // (a finished game may have no legal move left at all: the try cap ends the list)
 			}
 			p = next
 			mv = append(mv, ptn.FormatMove(m))
